@@ -287,12 +287,45 @@ def mixColumns (s : Array UInt8) : Array UInt8 :=
     | 2 => a0 ^^^ a1 ^^^ xtime a2 ^^^ (xtime a3 ^^^ a3)
     | _ => (xtime a0 ^^^ a0) ^^^ a1 ^^^ a2 ^^^ xtime a3
 
-/-- encrypt one block with an already expanded key -/
-def aesEncExpanded (w : Array UInt8) (nr : Nat) (block : Array UInt8) : Array UInt8 := Id.run do
+/-- encrypt one block with an already expanded key: the textbook round functions (reference) -/
+def aesEncExpandedRef (w : Array UInt8) (nr : Nat) (block : Array UInt8) : Array UInt8 := Id.run do
   let mut s := addRoundKey block w 0
   for round in [1:nr] do
     s := addRoundKey (mixColumns (subShift s)) w round
   return addRoundKey (subShift s) w nr
+
+/-- SubBytes + MixColumns of one byte in row 0 of a column, packed big-endian: `(2s, s, s, 3s)` -/
+def aesTe0 : Array UInt32 := Array.ofFn (n := 256) fun x =>
+  let s := aesSbox.getD x.val 0
+  let s2 := xtime s
+  (s2.toUInt32 <<< 24) ||| (s.toUInt32 <<< 16) ||| (s.toUInt32 <<< 8) ||| (s2 ^^^ s).toUInt32
+
+/-- the expanded key as big-endian column words -/
+def keyWords (w : Array UInt8) : Array UInt32 := Array.ofFn (n := w.size / 4) fun i => be32 w (4 * i.val)
+
+@[inline] def te (x : UInt32) : UInt32 := aesTe0.getD x.toNat 0
+
+/-- the same cipher on four column words with one table (rows 1–3 are byte rotations of row 0) -/
+def aesEncWords (rk : Array UInt32) (nr : Nat) (block : Array UInt8) : Array UInt8 := Id.run do
+  let mut c0 := be32 block 0 ^^^ rk.getD 0 0
+  let mut c1 := be32 block 4 ^^^ rk.getD 1 0
+  let mut c2 := be32 block 8 ^^^ rk.getD 2 0
+  let mut c3 := be32 block 12 ^^^ rk.getD 3 0
+  for round in [1:nr] do
+    let t0 := te (c0 >>> 24) ^^^ rotr32 (te ((c1 >>> 16) &&& 0xff)) 8 ^^^ rotr32 (te ((c2 >>> 8) &&& 0xff)) 16 ^^^ rotr32 (te (c3 &&& 0xff)) 24 ^^^ rk.getD (4 * round) 0
+    let t1 := te (c1 >>> 24) ^^^ rotr32 (te ((c2 >>> 16) &&& 0xff)) 8 ^^^ rotr32 (te ((c3 >>> 8) &&& 0xff)) 16 ^^^ rotr32 (te (c0 &&& 0xff)) 24 ^^^ rk.getD (4 * round + 1) 0
+    let t2 := te (c2 >>> 24) ^^^ rotr32 (te ((c3 >>> 16) &&& 0xff)) 8 ^^^ rotr32 (te ((c0 >>> 8) &&& 0xff)) 16 ^^^ rotr32 (te (c1 &&& 0xff)) 24 ^^^ rk.getD (4 * round + 2) 0
+    let t3 := te (c3 >>> 24) ^^^ rotr32 (te ((c0 >>> 16) &&& 0xff)) 8 ^^^ rotr32 (te ((c1 >>> 8) &&& 0xff)) 16 ^^^ rotr32 (te (c2 &&& 0xff)) 24 ^^^ rk.getD (4 * round + 3) 0
+    c0 := t0; c1 := t1; c2 := t2; c3 := t3
+  let sb (x : UInt32) : UInt32 := (sub x.toUInt8).toUInt32
+  let f0 := (sb (c0 >>> 24) <<< 24) ||| (sb ((c1 >>> 16) &&& 0xff) <<< 16) ||| (sb ((c2 >>> 8) &&& 0xff) <<< 8) ||| sb (c3 &&& 0xff)
+  let f1 := (sb (c1 >>> 24) <<< 24) ||| (sb ((c2 >>> 16) &&& 0xff) <<< 16) ||| (sb ((c3 >>> 8) &&& 0xff) <<< 8) ||| sb (c0 &&& 0xff)
+  let f2 := (sb (c2 >>> 24) <<< 24) ||| (sb ((c3 >>> 16) &&& 0xff) <<< 16) ||| (sb ((c0 >>> 8) &&& 0xff) <<< 8) ||| sb (c1 &&& 0xff)
+  let f3 := (sb (c3 >>> 24) <<< 24) ||| (sb ((c0 >>> 16) &&& 0xff) <<< 16) ||| (sb ((c1 >>> 8) &&& 0xff) <<< 8) ||| sb (c2 &&& 0xff)
+  return pushBe32 (pushBe32 (pushBe32 (pushBe32 (Array.mkEmpty 16) (f0 ^^^ rk.getD (4 * nr) 0)) (f1 ^^^ rk.getD (4 * nr + 1) 0)) (f2 ^^^ rk.getD (4 * nr + 2) 0)) (f3 ^^^ rk.getD (4 * nr + 3) 0)
+
+def aesEncExpanded (w : Array UInt8) (nr : Nat) (block : Array UInt8) : Array UInt8 :=
+  aesEncWords (keyWords w) nr block
 
 /-- `none` unless the key has 16 or 32 bytes and the block 16 -/
 def aesEnc (key block : Bytes) : Option Bytes :=
@@ -372,5 +405,12 @@ def ascii (s : String) : Bytes := s.toList.map fun c => UInt8.ofNat c.toNat
 #guard (aesEnc (List.range 32 |>.map UInt8.ofNat) ((List.range 16).map fun k => UInt8.ofNat (17 * k))).map hexOf == some "8ea2b7ca516745bfeafc49904b496089"
 #guard (aesDec (List.range 16 |>.map UInt8.ofNat) ((aesEnc (List.range 16 |>.map UInt8.ofNat) ((List.range 16).map fun k => UInt8.ofNat (17 * k))).getD [])).map hexOf == some "00112233445566778899aabbccddeeff"
 #guard (aesDec (List.range 32 |>.map UInt8.ofNat) ((aesEnc (List.range 32 |>.map UInt8.ofNat) ((List.range 16).map fun k => UInt8.ofNat (17 * k))).getD [])).map hexOf == some "00112233445566778899aabbccddeeff"
+-- the table-driven cipher against the textbook round functions
+#guard (List.range 40).all fun n =>
+  let key := (List.range 32).map fun k => UInt8.ofNat (k * 7 + n * 13)
+  let blk := ((List.range 16).map fun k => UInt8.ofNat (k * 31 + n * 5 + 1)).toArray
+  let w16 := aesExpand (key.take 16).toArray
+  let w32 := aesExpand key.toArray
+  aesEncExpanded w16 10 blk == aesEncExpandedRef w16 10 blk && aesEncExpanded w32 14 blk == aesEncExpandedRef w32 14 blk
 
 end Prim
